@@ -281,6 +281,21 @@ Section WithSig.
     exists j, sg, keys. split; [exact Hi|exact R].
   Qed.
 
+  Lemma rrset_verdict_secure lookup qname qtype kname ktype rs sigs now t idx :
+    rrset_verdict Sg verify lookup qname qtype kname ktype rs sigs now = GOk Secure t idx ->
+    default_rrset lookup qname qtype kname ktype rs sigs now = GOk Secure t idx.
+  Proof.
+    unfold Model.rrset_verdict.
+    destruct ((ktype =? 48) && match rs with [] => true | _ :: _ => false end); [discriminate|auto].
+  Qed.
+  Lemma rrset_verdict_err lookup qname qtype kname ktype rs sigs now p c :
+    rrset_verdict Sg verify lookup qname qtype kname ktype rs sigs now = GErr p c -> p = Bogus.
+  Proof.
+    unfold Model.rrset_verdict.
+    destruct ((ktype =? 48) && match rs with [] => true | _ :: _ => false end);
+      [intros [= <- _]; reflexivity|apply default_rrset_err].
+  Qed.
+
   (* a fresh Secure verdict for an RRset: some RRSIG of the RRset, some DNSKEY (itself Secure) of
      the validated DNSKEY answer for the RRSIG's signer name, all checks, TTL bound *)
   Definition justified (lookup : lookup_t) (kname : name) (ktype : N) (rs : list rr)
